@@ -15,6 +15,45 @@ CHECKS = {
         note="Trusts the reference executor, the Python parser stub (C library absent) and the generator bounds."),
 }
 
+CHECKS.update({
+    "C02": dict(
+        level="fault_enumeration", design="DESIGN.md section 5 C02",
+        technique="deterministic simulation with fault injection at the resolver seam: per-request enumeration of single faults, sampled pairs/subsets, reference executor with faults as oracle",
+        text="For every generated request the fault sites (each completed field / list-item position x applicable failure kind) are "
+             "enumerated; thorough runs every single fault of the request (cap 150), quick a seeded sample of 12, plus pairs and "
+             "random subsets. Each faulty execution runs on the real engine under its own seeded schedule and is compared with the "
+             "reference executor given the same faults and with the engine's own fault-free response. Exhaustive per generated "
+             "request only; requests themselves are sampled.",
+        note="Set inclusion for the number of errors under an already-doomed ancestor; messages compared only for injected tokens and library errors."),
+    "C08": dict(
+        level="exploration", design="DESIGN.md section 5 C08",
+        technique="deterministic simulation: seeded schedulers (random, FIFO, LIFO, reverse, starvation, PCT) + exhaustive DFS over completion orders for small requests, cross-comparison of runs",
+        text="One request is executed under several of the 8 concurrency configurations x K seeded schedules; requests with <= 5 "
+             "suspension points are enumerated exhaustively (all completion orders). All responses must agree; per run the event "
+             "log must show started == finished, no double start, nothing left behind, termination.",
+        note="Cooperative scheduling is the complete concurrency model of single-threaded asyncio; resolvers are pure by construction."),
+    "C09": dict(
+        level="exploration", design="DESIGN.md section 5 C09",
+        technique="deterministic simulation: event-log ordering check over seeded schedules with injected failures",
+        text="Mutation documents with 2-5 root fields run under seeded schedules of the nested resolvers, with failures placed on "
+             "nullable and non-null root fields; the recorded start/finish events must show root subtrees strictly one after another.",
+        note="Trusts the event log written by harness resolvers (global sequence numbers)."),
+    "C15": dict(
+        level="exploration", design="DESIGN.md section 5 C15",
+        technique="deterministic simulation: interleaved client tasks on one engine, cancellation fault, twin-engine solo runs as oracle",
+        text="2-8 requests run as concurrent client tasks of one SimLoop on one engine (staggered starts, optional cancellation of one "
+             "client, one exception instance shared between requests); each response must equal the same request alone on a twin "
+             "engine, and requests replayed afterwards must equal a fresh engine.",
+        note="Oracle needs no model of GraphQL: only executions of the real engine are compared. One known finding (shared exception instance)."),
+    "C16": dict(
+        level="exploration", design="DESIGN.md section 5 C16",
+        technique="deterministic simulation: seeded request histories (state machine) x cache configurations incl. a lossy cache fault, fresh-engine oracle",
+        text="Histories of 5-40 requests (valid / invalid / broken, str / bytes, other variables, pairs in flight) against engines with "
+             "default LRU, LRU(1), LRU(2), dict memo, lossy memo and no cache; every response is compared with a freshly cooked "
+             "uncached engine's response to the same request.",
+        note="Fresh engine = new schema name cooked per distinct request."),
+})
+
 NOT_APPLICABLE = {
     "C10": "pure synchronous functions of one value (scalar coercion laws): no schedule, clock, fault, interleaving or history "
            "for a simulator to control; deciding them is boundary-value enumeration, a different technique (DESIGN.md section 2)",
